@@ -56,7 +56,7 @@ theorem process_eq {β : Type} (F : Nat → List β → β) (g : PG) (p : Proc) 
                  (run ⟨g.inc⟩ (resetMoveTo g p root)).fin⟩
         log := (order g p root).map (fun n => (n, inputsOf g n))
         buf := (order g p root).foldl (invoke F g) buf } := by
-  simp [process, hr, hl, order]
+  simp [process, hr, hl, order, foldl_invokeM]
 
 /-- nodes invoked by a call, in order -/
 def invoked {β : Type} (r : Result β) : List Nat := r.log.map Prod.fst
@@ -111,9 +111,10 @@ theorem process_buffers {β : Type} (F : Nat → List β → β) (g : PG) (p : P
     subst h
     have : (Prod.fst ∘ fun n => (n, inputsOf g n)) = id := rfl
     refine ⟨?_, ?_⟩
-    · simp only [invoked, List.map_map, this, List.map_id]
+    · simp only [invoked, List.map_map, this, List.map_id, foldl_invokeM]
     · intro v hv
       simp only [invoked, List.map_map, this, List.map_id] at hv
+      simp only [foldl_invokeM]
       exact foldl_invoke_not_mem F g _ buf v hv
   · simp at h
 
